@@ -242,7 +242,7 @@ fn typed(idx: usize, pad: Option<usize>) -> Result<(), String> {
     }
 }
 
-fn run_case(c: &Case) -> Result<(), String> {
+pub fn run_case(c: &Case) -> Result<(), String> {
     match c {
         Case::Bytes { len, .. } => {
             bytes_same_thread(*len)
@@ -257,7 +257,7 @@ fn run_case(c: &Case) -> Result<(), String> {
     }
 }
 
-fn cfg_of(c: &Case) -> Cfg {
+pub fn cfg_of(c: &Case) -> Cfg {
     match c {
         Case::Bytes { buf, .. } => buf.cfg(false),
         Case::BytesThreaded { buf, .. } => buf.cfg(true),
@@ -268,7 +268,7 @@ fn cfg_of(c: &Case) -> Cfg {
 // ---------------------------------------------------------------------------
 // enumeration
 
-fn windows(sizes: (usize, usize), kmax: usize) -> Vec<usize> {
+pub fn windows(sizes: (usize, usize), kmax: usize) -> Vec<usize> {
     let (f1, f) = sizes;
     let mut v: Vec<usize> = vec![0, 1, 7, 8, 9];
     for k in 1..=kmax {
